@@ -4,8 +4,9 @@ from core import Gen, ty_l, ty_r
 
 
 class ExprGen:
-    def __init__(self, rng, rigid=False, ops=None, malformed=0.1, maxw=6):
+    def __init__(self, rng, rigid=False, ops=None, malformed=0.1, maxw=6, mixed=False):
         self.rng = rng
+        self.mixed = mixed      # also ask for adjoint wires plugged into boxes on the plain wire
         self.g = Gen(rng, rigid=rigid, maxw=maxw)
         self.rigid = rigid
         self.malformed = malformed
@@ -47,6 +48,16 @@ class ExprGen:
             if ac is None or r.random() < self.malformed:
                 b, bd, bc, bn = self.expr(depth - 1)
                 return ("then", a, b), ad, bc, an + bn
+            if self.mixed and any(z for _, z in ac) and r.random() < 0.5:
+                # ill-typed on purpose: same names, winding numbers dropped
+                flat = [(n, 0) for n, _ in ac]
+                if r.random() < 0.5:
+                    b, bn = ("box", self.g.gbox(flat, [(n, 0) for n, _ in self.g.ty(0, 2)])), 1
+                else:
+                    b, bd, bc, bn = self.fixed_dom(flat, depth - 1)
+                if r.random() < 0.3:
+                    a, b = b, a         # plain first, adjoint second
+                return ("then", a, b), None, None, an + bn
             b, bd, bc, bn = self.fixed_dom(ac, depth - 1)
             return ("then", a, b), ad, bc, an + bn
         if op == "tensor":
@@ -131,6 +142,14 @@ class ExprGen:
         offsets = list(offsets)
         how = r.choice(["off", "off", "neg", "cod", "len", "dom"])
         k = r.randrange(len(offsets))
+        if self.mixed:
+            ks = [i for i, b in enumerate(boxes)
+                  if b["kind"] == "g" and any(z for _, z in b["dom"])]
+            if ks:
+                k = r.choice(ks)
+                boxes = list(boxes)
+                boxes[k] = dict(boxes[k], dom=[(n, 0) for n, _ in boxes[k]["dom"]])
+                return ("mk", dom, cod, boxes, offsets), None, None, len(boxes)
         if how == "off":
             offsets[k] += r.choice([-3, -2, -1, 1, 2, 3, 7])
         elif how == "neg":
